@@ -101,6 +101,12 @@ for every schedule of batch sizes. -/
 theorem chunk_flatten {α : Type} (sched : Schedule) (xs : List α) : (chunk sched xs).flatten = xs :=
   Carrier.chunk_flatten sched xs
 
+/-- The repo's `VariableChunkIterator` is the instance with sizes `1..4` read from the 2-bit digits of
+a `u64` (so it always makes progress; `u64::MAX` = chunks of 4, `0` = chunks of 1). -/
+theorem word_chunks (w : Nat) (k : Nat) (xs : List α) :
+    (chunk (wordSizes w k) xs).flatten = xs ∧ ∀ i, 1 ≤ wordSize w i ∧ wordSize w i ≤ 4 :=
+  ⟨Carrier.chunk_flatten _ xs, wordSize_range w⟩
+
 /-- Run a stage batch by batch and concatenate (a failure anywhere is a failure). -/
 def batchwise {α β : Type} (S : List α → R (List β)) : List (List α) → Option (List β)
   | [] => (S []).toOption
@@ -151,6 +157,7 @@ end TF.C02
 #print axioms TF.C02.carrier_total
 #print axioms TF.C02.pre205_unsafe
 #print axioms TF.C02.chunk_flatten
+#print axioms TF.C02.word_chunks
 #print axioms TF.C02.rows_independent_of_batching
 #print axioms TF.C02.component_independent_of_batching
 #print axioms TF.C02.sched_irrelevant
